@@ -290,7 +290,8 @@ def read_env(src, expr, skip_envs=(), tolerance=0, mode=MODE_NON_MATH):
             if name == 'end':
                 break
         contents.append(read_expr(src, skip_envs=skip_envs, tolerance=tolerance, mode=mode))
-    error = not src.hasNext() or not args or args[0].string != expr.name
+    error = not src.hasNext() or not args or \
+        not isinstance(args[0], BraceGroup) or args[0].string != expr.name
     if error and tolerance == 0:
         unclosed_env_handler(src, expr, src.peek((0, 6)))
     elif not error:
